@@ -309,7 +309,9 @@ macro_rules! caps_slice {
             let mut writes = vec![];
             for (j, c) in sl.iter_mut().enumerate() {
                 let wv = sel(j);
-                if wv >= 0 {
+                // the dense slice does not say which entity a value belongs to; the value's
+                // own id does - Default-created values (id 0) are not unique and are left alone
+                if wv >= 0 && c.cid() != 0 {
                     c.set_val(wv as u32);
                     writes.push(json!([-1, c.cid(), wv]));
                 }
